@@ -338,9 +338,12 @@ func init() {
 		},
 		SkipCase:   func(cs *lab.Case) bool { return cs.G.Count(gram.KAct) == 0 },
 		OrderModes: []proto.Mode{memoMode},
+		// a rejected Parse(a) followed by Parse(b) without Reset: Execute must run b's actions
+		// only, not what a's attempt left in the token buffer
+		RetryModes: []proto.Mode{memoMode},
 		Modes: func(c *drv.Ctx, pt *Point, v lab.Variant) []proto.Mode {
 			if !pt.Ref.OK {
-				return nil
+				return []proto.Mode{memoMode} // only as the rejected first call of a retry
 			}
 			// the second mode is not judged here: it is there for the runner's check that a
 			// second instance set up from the same option value leaves this one's results alone
@@ -684,8 +687,12 @@ func init() {
 
 	// ------------------------------------------------------------------ C11
 	registerLab(&LabProp{
-		ID:       "C11",
-		Variants: []lab.Variant{lab.V0},
+		ID: "C11",
+		// the default parser with Pretty off and on, and the -inline and -noast ones. (-switch
+		// legitimately skips alternatives whose first character rules them out, and with them
+		// the records a lookahead inside them would have completed: its error token is only
+		// required to lie within the input, which C13 checks.)
+		Variants: []lab.Variant{lab.V0, lab.V1, lab.N0, lab.N1},
 		Chunks:   func(c *drv.Ctx) int { return c.Pick(1, 8) },
 		Opts: func(c *drv.Ctx) lab.CollectOpts {
 			return lab.CollectOpts{N: c.Pick(100, 300), Profiles: []string{"erry", "liney", "erry", "backtracky", "deep"},
@@ -703,14 +710,28 @@ func init() {
 		},
 		ReuseModes: []proto.Mode{memoMode},
 		Modes: func(c *drv.Ctx, pt *Point, v lab.Variant) []proto.Mode {
+			if v.Name != "v0" {
+				if v.NoAST && (pt.Ref.Budget || pt.Ref.Stats.Steps > memoFreeBudget(c)) {
+					return nil
+				}
+				return []proto.Mode{memoMode}
+			}
 			return []proto.Mode{memoMode, prettyMode}
 		},
 		Judge: func(c *drv.Ctx, pt *Point, l *lab.Lab) []Mismatch {
 			var ms []Mismatch
-			for _, m := range []proto.Mode{memoMode, prettyMode} {
-				o := obsOf(pt, "v0", m)
+			type vm struct {
+				v string
+				m proto.Mode
+			}
+			for _, x := range []vm{{"v0", memoMode}, {"v0", prettyMode}, {"v1", memoMode}, {"n0", memoMode}, {"n1", memoMode}} {
+				m := x.m
+				o := obsOf(pt, x.v, m)
 				if o == nil || o.NilRule {
 					continue
+				}
+				if x.v != "v0" {
+					c.Stats.Class("error_of_option_set_" + x.v)
 				}
 				c.Stats.Eval()
 				what := ""
@@ -719,10 +740,14 @@ func init() {
 				} else if o.OK != pt.Ref.OK {
 					what = fmt.Sprintf("Parse returned nil=%v but the entry rule matched=%v", o.OK, pt.Ref.OK)
 				} else if !o.OK {
-					what = judgeError(c, pt, o, m)
+					if x.v == "v0" {
+						what = judgeError(c, pt, o, m)
+					} else {
+						what = judgeError(c, pt, o, m, x.v[0] == 'n')
+					}
 				}
 				if what != "" {
-					ms = append(ms, Mismatch{What: what, Variant: "v0", Mode: m})
+					ms = append(ms, Mismatch{What: what, Variant: x.v, Mode: m})
 				}
 			}
 			return ms
@@ -974,12 +999,17 @@ func sameErrTok(a, b *proto.Tok) bool {
 var errRe = regexp.MustCompile(`(?s)^\nparse error near (.*?) \(line (-?\d+) symbol (-?\d+) - line (-?\d+) symbol (-?\d+)\):\n(.*)\n$`)
 
 // judgeError compares the error token and the message of a rejected parse.
-func judgeError(c *drv.Ctx, pt *Point, o *proto.Obs, m proto.Mode) string {
+func judgeError(c *drv.Ctx, pt *Point, o *proto.Obs, m proto.Mode, noast ...bool) string {
 	want := proto.Tok{N: "Unknown"}
-	if pt.Ref.ErrTok != nil {
-		want = proto.Tok{N: pt.Ref.ErrTok.Name, B: pt.Ref.ErrTok.B, E: pt.Ref.ErrTok.E}
+	refTok := pt.Ref.ErrTok
+	if len(noast) > 0 && noast[0] {
+		// a parser generated with -noast records rule applications only
+		refTok = pt.Ref.ErrTokRules
 	}
-	if m == memoMode && pt.Ref.ErrTok != nil && c.Stats.Nontrivial(pt.key()) {
+	if refTok != nil {
+		want = proto.Tok{N: refTok.Name, B: refTok.B, E: refTok.E}
+	}
+	if m == memoMode && len(noast) == 0 && pt.Ref.ErrTok != nil && c.Stats.Nontrivial(pt.key()) {
 		c.Stats.Class("nt_nonempty_error_token")
 		if strings.ContainsRune(string(pt.Runes[want.B:want.E]), '\n') {
 			c.Stats.Class("nt_token_spans_newline")
@@ -997,7 +1027,7 @@ func judgeError(c *drv.Ctx, pt *Point, o *proto.Obs, m proto.Mode) string {
 			c.Stats.Sample(pt.sample(map[string]any{"error_token": fmt.Sprintf("%s %d-%d", want.N, want.B, want.E)}))
 		}
 	}
-	if pt.Ref.ErrTok == nil {
+	if refTok == nil {
 		c.Stats.Class("rejected_without_nonempty_token")
 	}
 	if o.ErrTok == nil {
